@@ -199,7 +199,7 @@ def main():
                 for m in d[2]:
                     rec(m)
             elif d[0] == "seq" and any(c[0] == "seq" for c in d[2]):
-                if not d[3] or any(c[0] == "seq" and not d[3][0][j] for j, c in enumerate(d[2])):
+                if not d[3] or any(c[0] == "seq" and not any(row[j] for row in d[3]) for j, c in enumerate(d[2])):
                     ok = False
         rec(desc)
         if not ok:
